@@ -10,6 +10,7 @@
    lookup answers exactly what the cache-less lookup answers, in both lookup modes.
    Not proved here (covered by the configuration sweep of tools/c14.py): that the storage backends
    implement the file semantics of Storage.v, moka internals, the OS file system. *)
+From HC Require Import SoundCoreLib SoundCore ReplicaDisk1 ReplicaMiscA.
 From HC Require Import SoundCoreLib SoundCore ReplicaCor ReplicaCorA ReplicaCorC.
 From HC Require Import Core Refine ClearRefine Unified1 Unified3 CacheModel CacheOps.
 From HC Require Import Base NMap Codec Crypto FlatTree Storage Oplog Merkle Cache.
@@ -220,6 +221,52 @@ Theorem C14_cache_transparent_for_replica_histories_with_reopen :
          Sound.some_collision cr \/ forged_signature cr bs (kp_public (c_keypair c)).
 Proof. exact replica_cache_transparent. Qed.
 
+Theorem C14_cache_transparent_for_replica_histories_incl_reopen :
+  forall cr : crypto,
+         OplogFacts.crc_ok cr ->
+         (forall x : bytes, Datatypes.length (cr_hash cr x) = 32%nat) ->
+         (forall x : bytes, all_zero (cr_hash cr x) = false) ->
+         (forall x : bytes, bytes_ok (cr_hash cr x) = true) ->
+         forall bs : list bytes,
+         writer_fits bs ->
+         forall (ev : evo) (ops : list hop) (st : cst) (c : core) (w : world) (H : N -> bool),
+         evictor ev ->
+         RDInv cr bs c (w_disk w) H ->
+         Forall replica_hop_d ops ->
+         valid st c w ->
+         snd (hrun_c cr ev ops st c w) = hrun cr ops c w \/
+         Sound.some_collision cr \/ forged_signature cr bs (kp_public (c_keypair c)).
+Proof. exact replica_cache_transparent_reopen. Qed.
+
+Theorem C14_replica_reopen_is_cache_safe :
+  forall cr : crypto,
+         OplogFacts.crc_ok cr ->
+         (forall x : bytes, Datatypes.length (cr_hash cr x) = 32%nat) ->
+         (forall x : bytes, all_zero (cr_hash cr x) = false) ->
+         (forall x : bytes, bytes_ok (cr_hash cr x) = true) ->
+         forall bs : list bytes,
+         writer_fits bs ->
+         forall (c : core) (d : disk) (H : N -> bool), RDInv cr bs c d H -> open_vm cr None true d.
+Proof. exact open_vm_RDInv. Qed.
+
+Theorem C14_cache_transparent_after_crash_and_reopen :
+  forall cr : crypto,
+         OplogFacts.crc_ok cr ->
+         (forall x : bytes, Datatypes.length (cr_hash cr x) = 32%nat) ->
+         (forall x : bytes, all_zero (cr_hash cr x) = false) ->
+         (forall x : bytes, bytes_ok (cr_hash cr x) = true) ->
+         forall bs : list bytes,
+         writer_fits bs ->
+         forall (ev : evo) (ops : list hop) (st : cst) (c : core) (w : world) (pk : bytes) 
+           (H : N -> bool) (r : N),
+         evictor ev ->
+         RDisk cr bs pk (w_disk w) H r ->
+         Forall replica_hop_d ops ->
+         valid st c w ->
+         snd (hrun_c cr ev (HReopen :: ops) st c w) = hrun cr (HReopen :: ops) c w \/
+         Sound.some_collision cr \/ forged_signature cr bs pk.
+Proof. exact replica_cache_transparent_crash_reopen. Qed.
+
 Print Assumptions C14_cache_transparent.
 Print Assumptions C14_cache_starts_valid.
 Print Assumptions C14_cache_insert_keeps_valid.
@@ -247,3 +294,6 @@ Print Assumptions PagedMemFacts.ex_state_ok.
 Print Assumptions C14_accepted_proofs_agree_with_visible_nodes.
 Print Assumptions C14_cache_transparent_for_replica_histories.
 Print Assumptions C14_cache_transparent_for_replica_histories_with_reopen.
+Print Assumptions C14_cache_transparent_for_replica_histories_incl_reopen.
+Print Assumptions C14_replica_reopen_is_cache_safe.
+Print Assumptions C14_cache_transparent_after_crash_and_reopen.
